@@ -38,16 +38,15 @@ pub fn main(tier: &str, seed: u64, n_override: Option<u64>) {
                     for i in 0..6 { lo[i] = lo[i].min(a[i]); hi[i] = hi[i].max(a[i]); }
                     let ok = (0..6).all(|i| on_arc(from[i], to[i], a[i], 1e-9) != Some(false));
                     if !ok { if bad == 0 { first_bad = a; } bad += 1; }
-                    if !k.compliant(&a) { self_bad += 1; }
+                    // a draw strictly inside every arc (by the independent arc test) must also be accepted by the constraints themselves
+                    if !k.compliant(&a) && (0..6).all(|i| on_arc(from[i], to[i], a[i], 1e-9) == Some(true)) { if self_bad == 0 && bad == 0 { first_bad = a; } self_bad += 1; }
                 }
             }
         }
         let mut direct = "ok"; let mut class = "";
         if !panicked.is_empty() { direct = "fail"; class = "C18.sampler_panics"; }
         else if bad > 0 { direct = "fail"; class = "C18.sample_outside_arc"; }
-        else if self_bad > 0 && (0..6).all(|i| lo[i].is_finite()) {
-            // disagreement between compliant() and the arc oracle can only be marginal
-        }
+        else if self_bad > 0 { direct = "fail"; class = "C18.sample_rejected_by_compliant"; }
         println!("{}", Obj::new().s("prop", "C18").i("case", idx as i64).fs("from", &from).fs("to", &to).i("draws", draws)
             .fs("lo", &lo).fs("hi", &hi).i("bad", bad as i64).i("self_bad", self_bad as i64).fs("first_bad", &first_bad).s("panic", &panicked)
             .s("direct", direct).s("class", class).done());
